@@ -93,6 +93,10 @@ class ParserFactory:
         # error max right now, it's best to show the lexing one.
         for err_msg, lineno in self.lexer.errors[::-1]:
             self.errors.insert(0, (err_msg, lineno, self.path))
+        if parsed_data is None:
+            # Parsing was abandoned (e.g. unexpected end of file); the error
+            # has been recorded by p_error().
+            parsed_data = []
         parsed_data.extend(self.anony_defs)
         self.exhausted = True
         return parsed_data
@@ -866,7 +870,11 @@ class ParserFactory:
 
     # Called by the parser whenever a token doesn't match any rule.
     def p_error(self, token):
-        assert token is not None, "Unknown error, please report this."
+        if token is None:
+            # The input ended in the middle of a definition.
+            self.errors.append(
+                ('Unexpected end of file.', self.lexer.lex.lineno, self.path))
+            return
         logger.debug('Unexpected %s(%r) at line %d',
                      token.type,
                      token.value,
